@@ -17,6 +17,50 @@ theorem lookupSym_some {sig : List Sym} {n : Nat} {f : Sym} (h : lookupSym sig n
 theorem contains_iff {l : List Nat} {a : Nat} : l.contains a = true ↔ a ∈ l := by
   simp
 
+/-- what a sound closure table says is true of `close` -/
+theorem ct_sound {rules : List Rule} {ct : List (Nat × List Nat)} (h : ctSound rules ct = true)
+    {n nt : Nat} (hm : nt ∈ guarOf ct n) : nt ∈ close rules n := by
+  unfold guarOf at hm
+  split at hm
+  · rename_i p hp
+    have hmem : p ∈ ct := List.mem_of_find?_eq_some hp
+    have hkey : p.1 = n := by
+      have := List.find?_some hp
+      simpa using this
+    unfold ctSound at h
+    have := (List.all_eq_true.mp h) p hmem
+    unfold subsetB at this
+    have := (List.all_eq_true.mp this) nt hm
+    rw [hkey] at this
+    exact contains_iff.mp this
+  · simp at hm
+
+theorem dropTo_suffix (w : Nat) : ∀ (rs : List Rule) (r : Rule) (rs' : List Rule),
+    dropTo w rs = r :: rs' → ∀ x, x ∈ r :: rs' → x ∈ rs
+  | [], r, rs', h, x, hx => by simp [dropTo] at h
+  | a :: as, r, rs', h, x, hx => by
+    unfold dropTo at h
+    split at h
+    · rw [h]; exact hx
+    · exact List.mem_cons_of_mem _ (dropTo_suffix w as r rs' h x hx)
+
+/-- the certificate check yields a witness rule in `rules` for every symbol of `sig` -/
+theorem checkW_sound (g ct : List (Nat × List Nat)) (rules : List Rule) :
+    ∀ (sig : List Sym) (rs : List Rule) (wit : List Nat), (∀ x, x ∈ rs → x ∈ rules) →
+      checkW g ct rs sig wit = true → ∀ f, f ∈ sig → ∃ r, r ∈ rules ∧ witnessOk g ct f r = true
+  | [], _, _, _, _, f, hf => by simp at hf
+  | f0 :: fs, rs, [], _, h, f, hf => by simp [checkW] at h
+  | f0 :: fs, rs, w :: ws, hsub, h, f, hf => by
+    unfold checkW at h
+    split at h
+    · rename_i r rs' hd
+      simp only [Bool.and_eq_true] at h
+      have hsub' : ∀ x, x ∈ r :: rs' → x ∈ rules := fun x hx => hsub x (dropTo_suffix w rs r rs' hd x hx)
+      rcases List.mem_cons.mp hf with heq | htail
+      · exact ⟨r, hsub' r (List.mem_cons_self), by rw [heq]; exact h.1⟩
+      · exact checkW_sound g ct rules fs (r :: rs') ws hsub' h.2 f htail
+    · simp at h
+
 /-- a firing rule contributes the whole chain closure of its non-terminal -/
 theorem mem_labelsAt {rules : List Rule} {r : Rule} {name : Nat} {acc : List Nat} {ks : List LTree} {nt : Nat}
     (hr : r ∈ rules) (hf : ruleFires r name acc ks = true) (hc : nt ∈ close rules r.nt) :
@@ -26,8 +70,8 @@ theorem mem_labelsAt {rules : List Rule} {r : Rule} {name : Nat} {acc : List Nat
   exact ⟨r, List.mem_filter.mpr ⟨hr, hf⟩, hc⟩
 
 mutual
-theorem cover_tree (rules : List Rule) (sig : List Sym) (g : List (Nat × List Nat))
-    (hp : premise rules sig g = true) :
+theorem cover_tree (rules : List Rule) (sig : List Sym) (g ct : List (Nat × List Nat)) (wit : List Nat)
+    (hp : premise rules sig g ct wit = true) :
     ∀ (t : Tree) (s : Nat), wellSorted sig t s = true → ∀ nt, nt ∈ guarOf g s →
       nt ∈ (annot rules t).labels
   | .node n acc kids, s, hws, nt, hnt => by
@@ -38,17 +82,18 @@ theorem cover_tree (rules : List Rule) (sig : List Sym) (g : List (Nat × List N
       simp only [Bool.and_eq_true, beq_iff_eq] at hws
       obtain ⟨hres, hkids⟩ := hws
       -- the premise for symbol f and goal nt
-      have hsym : symOk g rules f = true := by
-        unfold premise at hp
-        exact (List.all_eq_true.mp hp) f hmem
-      unfold symOk at hsym
-      have hnt' : nt ∈ guarOf g f.res := by rw [hres]; exact hnt
-      have hany := (List.all_eq_true.mp hsym) nt hnt'
-      obtain ⟨r, hr, hw⟩ := List.any_eq_true.mp hany
-      unfold ruleWitness at hw
+      have hp0 := hp
+      unfold premise at hp0
+      simp only [Bool.and_eq_true] at hp0
+      obtain ⟨hct, hchk⟩ := hp0
+      obtain ⟨r, hr, hw⟩ := checkW_sound g ct rules sig rules wit (fun _ h => h) hchk f hmem
+      unfold witnessOk flatRule at hw
       simp only [Bool.and_eq_true, Bool.not_eq_true'] at hw
-      obtain ⟨⟨hcond, hpat⟩, hclose⟩ := hw
-      have hclose' : nt ∈ close rules r.nt := contains_iff.mp hclose
+      obtain ⟨⟨hcond, hpat⟩, hsub⟩ := hw
+      have hnt' : nt ∈ guarOf g f.res := by rw [hres]; exact hnt
+      have hclose' : nt ∈ close rules r.nt := by
+        unfold subsetB at hsub
+        exact ct_sound hct (contains_iff.mp ((List.all_eq_true.mp hsub) nt hnt'))
       -- the rule fires at this node
       have hfire : ruleFires r n acc (annotL rules kids) = true := by
         unfold ruleFires
@@ -56,15 +101,15 @@ theorem cover_tree (rules : List Rule) (sig : List Sym) (g : List (Nat × List N
         · rename_i nm ps hpat_eq
           simp only [Bool.and_eq_true, beq_iff_eq] at hpat
           obtain ⟨hnm, hflat⟩ := hpat
-          have hm := cover_list rules sig g hp kids f.args hkids ps hflat
+          have hm := cover_list rules sig g ct wit hp kids f.args hkids ps hflat
           simp [hnm, hname, hm, hcond]
         · simp at hpat
       show nt ∈ (annot rules (.node n acc kids)).labels
       unfold annot
       exact mem_labelsAt hr hfire hclose'
     · simp at hws
-theorem cover_list (rules : List Rule) (sig : List Sym) (g : List (Nat × List Nat))
-    (hp : premise rules sig g = true) :
+theorem cover_list (rules : List Rule) (sig : List Sym) (g ct : List (Nat × List Nat)) (wit : List Nat)
+    (hp : premise rules sig g ct wit = true) :
     ∀ (ts : List Tree) (ss : List Nat), wellSortedL sig ts ss = true →
       ∀ ps, flatFor g ps ss = true → matchPats ps (annotL rules ts) = true
   | [], ss, _, ps, _ => by
@@ -83,8 +128,8 @@ theorem cover_list (rules : List Rule) (sig : List Sym) (g : List (Nat × List N
       unfold flatFor at hflat
       simp only [Bool.and_eq_true] at hflat
       obtain ⟨hm, hrest⟩ := hflat
-      have ht := cover_tree rules sig g hp t s h1 m (contains_iff.mp hm)
-      have hl := cover_list rules sig g hp ts ss h2 ps' hrest
+      have ht := cover_tree rules sig g ct wit hp t s h1 m (contains_iff.mp hm)
+      have hl := cover_list rules sig g ct wit hp ts ss h2 ps' hrest
       unfold annotL matchPats
       simp only [Bool.and_eq_true]
       refine ⟨?_, hl⟩
